@@ -107,7 +107,7 @@ class _Addr:
 def wrapper(fmt, which):
     """wrapper layer of a format whose library is stubbed by contract"""
     def pre(sel, s):
-        return 0 <= sel < 5 and len(s) <= 2
+        return 0 <= sel < 5 and len(s) <= 12
 
     def body(sel, s):
         import datetime as real_datetime
